@@ -275,6 +275,7 @@ func run(c *runner.Ctx, idx int) {
 		}
 	case "sample-entry":
 		count(checkMultiTrackEntries(c, b.a))
+		count(checkRepeatedSet(c, b.a))
 		fs := append(append([]int{}, tableFreqs...), explicitSet...)
 		for _, f := range fs {
 			if b.a != 2 && 2*f >= 1<<24 {
@@ -547,4 +548,82 @@ func checkMultiTrackEntries(c *runner.Ctx, firstObj int) bool {
 		}
 	}
 	return true
+}
+
+// checkRepeatedSet calls SetAACDescriptor twice on the same track with
+// different configurations. Whatever the library does with the first entry
+// (it appends a second mp4a entry), after encode and decode no mp4a entry
+// may mix the two calls: its AudioSpecificConfig must be one of the two
+// implied configurations and its sample rate field must come from the same
+// call. (Which entry stsd.Mp4a designates is the library's choice.)
+func checkRepeatedSet(c *runner.Ctx, firstObj int) bool {
+	type cfg struct{ obj, f int }
+	pairs := [][2]cfg{{{firstObj, 48000}, {2, 22050}}, {{2, 44100}, {firstObj, 16000}}, {{5, 24000}, {29, 12000}}, {{firstObj, 12345}, {firstObj, 32000}}}
+	implied := func(t cfg) aac.AudioSpecificConfig {
+		w := wantASC(t.obj, 2, t.f, 2*t.f)
+		if t.obj == 2 {
+			w = wantASC(t.obj, 2, t.f, 0)
+		}
+		if t.obj == 29 {
+			w.ChannelConfiguration = 1
+		}
+		return w
+	}
+	ok := true
+	for _, p := range pairs {
+		if p[0] == p[1] {
+			continue
+		}
+		init := mp4.CreateEmptyInit()
+		init.AddEmptyTrack(48000, "audio", "und")
+		trak := init.Moov.Trak
+		if err := trak.SetAACDescriptor(byte(p[0].obj), p[0].f); err != nil {
+			continue // reported by checkSampleEntry
+		}
+		if err := trak.SetAACDescriptor(byte(p[1].obj), p[1].f); err != nil {
+			c.Seen("repeated_set", "second SetAACDescriptor on the same track returns an error")
+			continue
+		}
+		var buf bytes.Buffer
+		if err := init.Encode(&buf); err != nil {
+			c.Violation("sample-entry/repeated-set/encode-error", err.Error(), nil)
+			return false
+		}
+		file, err := mp4.DecodeFile(bytes.NewReader(buf.Bytes()))
+		if err != nil || file.Init == nil || file.Init.Moov == nil || file.Init.Moov.Trak == nil {
+			c.Violation("sample-entry/repeated-set/decode-error", fmt.Sprintf("init after two SetAACDescriptor calls on one track: %v", err), nil)
+			return false
+		}
+		stsd := file.Init.Moov.Trak.Mdia.Minf.Stbl.Stsd
+		n := 0
+		for _, ch := range stsd.Children {
+			m, isA := ch.(*mp4.AudioSampleEntryBox)
+			if !isA || m.Esds == nil || m.Esds.DecConfigDescriptor == nil || m.Esds.DecConfigDescriptor.DecSpecificInfo == nil {
+				continue
+			}
+			n++
+			got, err := aac.DecodeAudioSpecificConfig(bytes.NewReader(m.Esds.DecConfigDescriptor.DecSpecificInfo.DecConfig))
+			if err != nil || got == nil {
+				c.Violation("sample-entry/repeated-set/asc-decode-error", fmt.Sprintf("entry %d: %v", n, err), nil)
+				ok = false
+				continue
+			}
+			match := -1
+			for i := range p {
+				if *got == implied(p[i]) {
+					match = i
+				}
+			}
+			if match < 0 {
+				c.Violation("sample-entry/repeated-set/config", fmt.Sprintf("after SetAACDescriptor(%d,%d) then (%d,%d) on one track, mp4a entry %d decodes to %+v: neither call's configuration", p[0].obj, p[0].f, p[1].obj, p[1].f, n, *got), nil)
+				ok = false
+			} else if int(m.SampleRate) != p[match].f && p[match].f <= 0xffff {
+				c.Violation("sample-entry/repeated-set/mixed-entry", fmt.Sprintf("after SetAACDescriptor(%d,%d) then (%d,%d) on one track, mp4a entry %d carries the AudioSpecificConfig of call %d but sample rate %d", p[0].obj, p[0].f, p[1].obj, p[1].f, n, match+1, m.SampleRate), nil)
+				ok = false
+			}
+		}
+		c.Seen("repeated_set", fmt.Sprintf("%d mp4a entries after two calls", n))
+		c.Evals(1)
+	}
+	return ok
 }
